@@ -543,6 +543,7 @@ pub fn run_case(case: &ParCase, stats: &mut Stats, miri: bool) -> Result<ParInfo
     if prop == "C08" && !miri && case.poison_run.is_some() {
         let mut again = case.clone();
         again.poison_run = case.poison_run.map(|p| p.rotate_left(17) ^ 0xA5A5_5A5A_0F0F_F0F1);
+        again.fill = case.fill.map(|f| f.rotate_left(29) ^ 0x0F0F_F0F0_A5A5_5A5B);
         // other stale stack contents as well
         for ops in again.tasks.iter_mut() {
             for op in ops.iter_mut() {
@@ -1017,7 +1018,8 @@ pub fn gen_case_c08(seed: u64, cfg: &GenCfg) -> ParCase {
         yield_mode: sched::YIELD_NONE,
         poison_ref: None,
         poison_run: if cfg.miri { None } else { Some(r.next_u64() | 2) },
-        fill: None,
+        // heap back-end: fresh blocks hold seeded garbage (changed in the second execution)
+        fill: if cfg.miri { None } else { Some(r.next_u64() | 1) },
         stack_kib: 512,
         lib_mask: 0,
         lib_every: 1,
